@@ -935,7 +935,10 @@ Proof.
   apply in_split in Hin as (l1 & l2 & Eo).
   assert (Hn1 : ~ In (m_name M) l1).
   { intros Hin. rewrite Eo in NDo. apply NoDup_remove_2 in NDo. apply NDo. apply in_app_iff. now left. }
-  unfold nested_imports_model. rewrite Eo, (before_split _ _ _ Hn1).
+  assert (HR : uses_resolved S = true).
+  { unfold counted in HC. unfold uses_resolved. rewrite forallb_forall in HC |- *. intros k Hk.
+    specialize (HC k Hk). destruct k; simpl in *; congruence. }
+  unfold nested_imports_model. rewrite HR, Eo, (before_split _ _ _ Hn1).
   assert (F0 : functional (nested_imports c g M S)).
   { eapply functional_incl; [|exact Fn]. intros x Hx. apply in_flat_map. exists c. split; auto.
     destruct c; simpl; auto. }
@@ -1266,26 +1269,42 @@ Example ex_tables :
   assoc_get (s "vd1") (snd (st CVar)) = Some (s "md", s "vd1").
 Proof. vm_compute. repeat split; reflexivity. Qed.
 
-(* ---- nested scopes: witness of region 5 and an example *)
-(* module mm: abstract interface; subroutine cb(x); use zf; type(ta) :: x   module zf: use za *)
+(* ---- nested scopes: witnesses of region 5 and an example *)
 Definition w_za : module := mkM "za" Public [mkD "ta" KType Public; mkD "pa" KProc Public] [] [].
-Definition w_uncounted : graph :=
-  [mkMn "mm" Public [mkD "cb" KAbs Public] [] [] [mkS ["cb"%string] [NAbsBody] [] [mkU "zf" None []]];
+(* module mm: abstract interface; subroutine cb(x); use za; type(ta) :: x *)
+Definition w_absbody : graph :=
+  [mkMn "mm" Public [mkD "cb" KAbs Public] [] [] [mkS ["cb"%string] [NAbsBody] [] [mkU "za" None []]];
+   w_za].
+(* module mm: interface gg; subroutine ext(x); use zf; type(ta) :: x   module zf: use za *)
+Definition w_genbody : graph :=
+  [mkMn "mm" Public [mkD "gg" KGeneric Public; mkD "ext" KProc Public] [] []
+         [mkS ["ext"%string] [NGenBody] [] [mkU "zf" None []]];
    mkM "zf" Public [] [] [mkU "za" None []];
    w_za].
 Definition nested_refuted_in (g : graph) : Prop :=
   exists o c M S, wf_graph g = true /\ topo_b g o = true /\ toposort g = Some o /\
                   In M g /\ In S (m_nested M) /\ no_region g = true /\ region_uncounted g = true /\
                   ~ denotes (nested_imports_model c g o M S) (nested_imports c g M S).
-Lemma refuted_uncounted : nested_refuted_in w_uncounted.
+Lemma refuted_absbody : nested_refuted_in w_absbody.
 Proof.
-  exists [s "mm"; s "za"; s "zf"], CType, (nth 0 w_uncounted w_za),
-         (mkS ["cb"%string] [NAbsBody] [] [mkU "zf" None []]).
+  exists [s "mm"; s "za"], CType, (nth 0 w_absbody w_za),
+         (mkS ["cb"%string] [NAbsBody] [] [mkU "za" None []]).
   repeat split; try (vm_compute; reflexivity); try (simpl; auto; fail).
   intros D. specialize (D (s "ta") (s "za", s "ta")). destruct D as [_ D].
   assert (H : in_b (s "ta") (s "za", s "ta")
-                (nested_imports CType w_uncounted (nth 0 w_uncounted w_za)
-                   (mkS ["cb"%string] [NAbsBody] [] [mkU "zf" None []])) = true) by (vm_compute; reflexivity).
+                (nested_imports CType w_absbody (nth 0 w_absbody w_za)
+                   (mkS ["cb"%string] [NAbsBody] [] [mkU "za" None []])) = true) by (vm_compute; reflexivity).
+  apply in_b_In in H. apply D in H. vm_compute in H. discriminate.
+Qed.
+Lemma refuted_genbody : nested_refuted_in w_genbody.
+Proof.
+  exists [s "mm"; s "za"; s "zf"], CType, (nth 0 w_genbody w_za),
+         (mkS ["ext"%string] [NGenBody] [] [mkU "zf" None []]).
+  repeat split; try (vm_compute; reflexivity); try (simpl; auto; fail).
+  intros D. specialize (D (s "ta") (s "za", s "ta")). destruct D as [_ D].
+  assert (H : in_b (s "ta") (s "za", s "ta")
+                (nested_imports CType w_genbody (nth 0 w_genbody w_za)
+                   (mkS ["ext"%string] [NGenBody] [] [mkU "zf" None []])) = true) by (vm_compute; reflexivity).
   apply in_b_In in H. apply D in H. vm_compute in H. discriminate.
 Qed.
 
